@@ -691,7 +691,7 @@ pub async fn rtu_server_reopen(k: usize, ev: &mut Evidence) -> Vec<(String, Stri
         }
         // the beginning of a frame is still on its way when the port goes away: the new port is a new
         // stream and must not inherit it
-        if k % 2 == 1 {
+        if k % 2 == 1 && k % 3 != 2 {
             let a2 = a.clone();
             let _ = tokio::task::spawn_blocking(move || a2.write(&[7, 3, 0])).await;
             tokio::time::sleep(Duration::from_millis(40)).await;
